@@ -734,6 +734,60 @@ const CORPUS: &[&str] = &[
     "udp e2e v6 L R R C0 x1>0:3:1 x2>0:3:2 s3:3:3 w r0>1:5:7 r0>2:0:8 r0>3:5:9 f0>3:65507:2 w",
 ];
 
+/// multicast: a listener opened on a group address receives what is sent to the group, and — since it is
+/// bound to the port on every local address — what a peer then sends to the unicast address it saw the
+/// listener's reply come from (discover on the group, then talk directly).  Sizes 0 … 65507, paced.
+fn run_mcast() -> (String, String, String, String) {
+    let (ctl, mut proc_) = network::split();
+    let port = UdpSocket::bind("0.0.0.0:0").and_then(|s| s.local_addr()).map(|a| a.port()).unwrap_or(0);
+    let group: SocketAddr = format!("239.255.0.7:{}", port).parse().unwrap();
+    let setup_failed = |why: &str| ("#mcast-setup-failed".to_string(), format!("setup-failed: {}", why), "ok".to_string(), "mcast,setup-failed".to_string());
+    let Ok((mid, _)) = ctl.listen(Transport::Udp, group) else { return setup_failed("listen on the group") };
+    let Ok((pid, _)) = ctl.listen(Transport::Udp, "0.0.0.0:0") else { return setup_failed("listen") };
+    let mut pump = |proc_: &mut NetworkProcessor, ms: u64| -> Vec<(Endpoint, Vec<u8>)> {
+        let mut evs = vec![];
+        proc_.process_poll_events_until_timeout(Duration::from_millis(ms), |ev| {
+            if let NetEvent::Message(ep, data) = ev {
+                evs.push((ep, data.to_vec()));
+            }
+        });
+        evs
+    };
+    // the peer (a plain listener) discovers the group listener
+    ctl.send(Endpoint::from_listener(pid, group), b"probe");
+    let evs = pump(&mut proc_, 150);
+    let Some((ep_m, _)) = evs.iter().find(|(ep, d)| ep.resource_id() == mid && d == b"probe").cloned() else {
+        return setup_failed("no multicast route: the probe sent to the group did not arrive")
+    };
+    // the group listener replies through the endpoint it was given
+    ctl.send(ep_m, b"reply");
+    let evs = pump(&mut proc_, 150);
+    let reply = evs.iter().find(|(ep, d)| ep.resource_id() == pid && d == b"reply").cloned();
+    let mut got = 0;
+    let sizes = [0usize, 1, 2, 100, 1472, 1473, 9000, 65507];
+    let mut detail = String::new();
+    if let Some((ep_p, _)) = reply {
+        for (k, n) in sizes.iter().enumerate() {
+            let data = payload(*n, 50 + k as u64);
+            let st = ctl.send(ep_p, &data);
+            let evs = pump(&mut proc_, 30);
+            let ok = st == SendStatus::Sent && evs.iter().any(|(ep, d)| ep.resource_id() == mid && ep.addr() == ep_m.addr() && *d == data);
+            if ok {
+                got += 1;
+            }
+            else if detail.is_empty() {
+                detail = format!("{} bytes sent ({:?}) to {} (where the reply came from) were not delivered to the group listener", n, st, ep_p.addr());
+            }
+        }
+    }
+    else {
+        detail = "the reply of the group listener did not reach the peer".into();
+    }
+    let imp = format!("probe=1 reply={} unicast={}/{}", reply.is_some() as u8, got, sizes.len());
+    let ok = reply.is_some() && got == sizes.len();
+    ("udp mcast".into(), imp, if ok { "ok".into() } else { format!("FAIL {}", detail) }, "mcast,reply,from_listener,max,zero".into())
+}
+
 fn main() {
     quiet_panics();
     let mode = arg(1);
@@ -743,6 +797,10 @@ fn main() {
         "gen" => {
             let seed = arg_u64(2, 1);
             let n = arg_u64(3, 40);
+            {
+                let (c, i, o, t) = run_mcast();
+                emit(&mut out, &c, &i, &o, &t);
+            }
             for c in CORPUS {
                 let toks: Vec<&str> = c.split(' ').skip(2).collect();
                 let (imp, oracle, tags) = run_case(&toks);
@@ -788,6 +846,10 @@ fn main() {
                 let toks: Vec<&str> = line.trim().split(' ').collect();
                 let (imp, oracle, tags) = match toks.as_slice() {
                     ["udp", "e2e", rest @ ..] => run_case(rest),
+                    ["udp", "mcast"] => {
+                        let (_, i, o, t) = run_mcast();
+                        (i, o, t)
+                    }
                     ["udp", "fl", k] => run_fl(k),
                     _ => ("bad-case".into(), "ok".into(), "".into()),
                 };
